@@ -4,3 +4,4 @@ import PytaskModel.Sorter
 import PytaskModel.Engine
 import PytaskModel.PyTree
 import PytaskModel.TaskArgs
+import PytaskModel.Provisional
